@@ -396,3 +396,37 @@ Proof.
   - destruct H as [H|H]; [discriminate | tauto].
   - tauto.
 Qed.
+
+(* ---- corollaries pinned in Props/C16idx.v ----------------------------------------------------------- *)
+
+Lemma scan_for_offset_choice_free : forall bs1 bs2, bs_contract bs1 -> bs_contract bs2 ->
+  forall (l : list N) (start t : N),
+  Sorted N.le l -> 2 * ulen l <= usize_max -> start <= ulen l ->
+  scan_for_offset bs1 (2 * length l + 2) l start t = scan_for_offset bs2 (2 * length l + 2) l start t.
+Proof.
+  intros bs1 bs2 H1 H2 l start t Hs Hm Hst.
+  destruct (scan_for_offset_correct bs1 H1 l start t _ Hs Hm Hst (le_n _)) as (r1 & E1 & S1).
+  destruct (scan_for_offset_correct bs2 H2 l start t _ Hs Hm Hst (le_n _)) as (r2 & E2 & S2).
+  rewrite E1, E2. f_equal. eapply scan_spec_unique; eauto.
+Qed.
+
+Lemma binary_search_lower_bound : forall bs, bs_contract bs ->
+  forall (l : list N) (start t : N),
+  Sorted N.le l -> ulen l <= usize_max -> start <= ulen l ->
+  (forall j, j < start -> nthN l j < t) ->
+  exists r, binary_search_from bs (length l + 1) l start t = Ok r /\
+    start <= r /\ r <= ulen l /\ (forall j, j < r -> nthN l j < t) /\
+    (forall j, r <= j -> j < ulen l -> t <= nthN l j).
+Proof.
+  intros bs Hb l start t Hs Hm Hst Hlow.
+  destruct (binary_search_from_correct bs Hb l start t _ Hs Hm Hst (le_n _)) as (r & E & B1 & B2 & B3 & B4 & B5).
+  exists r. split; [exact E|].
+  assert (Hsr : start <= r).
+  { destruct (N.le_gt_cases start r) as [H|H]; auto. exfalso.
+    (* r < start: then l[r] < t by the hypothesis, but everything from r on is >= t *)
+    specialize (Hlow r H). specialize (B2 r (N.le_refl _) ltac:(apply N.lt_le_trans with start; auto)).
+    apply N.lt_nge in Hlow. contradiction. }
+  repeat split; auto.
+  intros j Hj. destruct (N.lt_ge_cases j start) as [J|J]; [apply Hlow; exact J | apply B3; auto].
+Qed.
+
